@@ -11,17 +11,21 @@
    and the library repairs (some of) them in __getstate__/__setstate__:
 
      LockedMachine.__getstate__ : del state['model_context_map'];
-                                  state['_model_context_map_store'] = {mod: map[id(mod)] for mod in models}
-     LockedMachine.__setstate__ : map = defaultdict(list); for model in models: map[id(model)] = store[model]
+                                  state['_model_context_map_store'] = [(mod, map[id(mod)]) for mod in models]
+     LockedMachine.__setstate__ : map = defaultdict(list); for model, contexts in store: map[id(model)] = contexts
+                                  (a list of pairs: models need not be hashable — fix 3c0ca68)
      GraphMachine.__getstate__  : drop 'model_graphs'
      GraphMachine.__setstate__  : __dict__.update(state); model_graphs = {};
                                   for model in models: _get_graph(model)      (regenerated)
      PicklableLock.__getstate__/__setstate__ : state discarded, re-created UNLOCKED
      (nothing for _transition_queue_dict)
 
-   Which pair of hooks a class uses is decided by the MRO: LockedGraphMachine(GraphMachine,
-   LockedMachine) and LockedHierarchicalGraphMachine(GraphMachine, ...) inherit GraphMachine's
-   pair, which does not call super(): [effective_hooks].
+   Which pair of hooks a class uses is decided by the MRO; GraphMachine's pair does not call
+   super(), so LockedGraphMachine(GraphMachine, LockedMachine) and LockedHierarchicalGraphMachine
+   define their own pair that runs both protocols (fix 74ef53e):
+     __getstate__ : LockedMachine.__getstate__ minus 'model_graphs'
+     __setstate__ : LockedMachine.__setstate__(state); GraphMachine.__setstate__({})
+   [effective_hooks].
 
    ASSUMED (not modelled further): what pickle does to the object graph, given as the
    function [transport]: every object reachable from the machine is re-created under a fresh
@@ -77,11 +81,12 @@ Definition lookup_list {A} (t : list (ident * list A)) (i : ident) : list A :=
 (* ----------------------------------------------------------------- classes *)
 (* the key of factory._CLASS_MAP: (graph, nested, locked, asyncio) *)
 Record cls : Type := mkCls { k_graph : bool; k_nested : bool; k_locked : bool; k_async : bool }.
-Inductive hooks : Type := HDefault | HLocked | HGraph.
-Definition hooks_code (h : hooks) : nat := match h with HDefault => 0 | HLocked => 1 | HGraph => 2 end.
+Inductive hooks : Type := HDefault | HLocked | HGraph | HLockedGraph.
+Definition hooks_code (h : hooks) : nat :=
+  match h with HDefault => 0 | HLocked => 1 | HGraph => 2 | HLockedGraph => 3 end.
 (* first class of the MRO that defines __getstate__/__setstate__ *)
 Definition effective_hooks (k : cls) : hooks :=
-  if k_graph k then HGraph else if k_locked k then HLocked else HDefault.
+  if k_graph k then (if k_locked k then HLockedGraph else HGraph) else if k_locked k then HLocked else HDefault.
 
 (* context objects: PicklableLock (lo_picklable: state discarded by pickling), IdentManager
    and user contexts (pickled like any object) *)
@@ -111,8 +116,6 @@ Section Pickle.
   }.
 
   Definition state_of (w : world) (i : ident) : option S := option_map mo_state (lookup (w_models w) i).
-  Definition hashable (w : world) (i : ident) : bool :=
-    match lookup (w_models w) i with Some o => mo_hashable o | None => true end.
 
   (* ------------------------------------------------------------- table maintenance (reachability) *)
   Definition init_machine (k : cls) (c : C) (q : bool) (mctx : list ident) : machine :=
@@ -160,12 +163,15 @@ Section Pickle.
     p_models : list ident;                          (* references *)
     p_mctx : list ident;                            (* references *)
     p_cmap : list (ident * list ident);             (* INTEGER keys, reference values *)
-    p_store : option (list (ident * list ident));   (* keyed by the model OBJECTS (references) *)
+    p_store : option (list (ident * list ident));   (* list of (model OBJECT, contexts) pairs: references *)
     p_graphs : list (ident * G);
     p_qkeys : list ident                            (* INTEGER keys *)
   }.
 
-  (* None: building the store raises TypeError (unhashable model used as a dict key) *)
+  (* never raises (the option is kept for the callers: None would be an exception in __getstate__);
+     in particular the hashability of the models plays no role any more *)
+  Definition locked_store (m : machine) : list (ident * list ident) :=
+    map (fun i => (i, lookup_list (m_cmap m) i)) (m_models m).
   Definition getstate (w : world) (m : machine) : option pstate :=
     match effective_hooks (m_cls m) with
     | HDefault =>
@@ -175,11 +181,11 @@ Section Pickle.
         Some (mkP (m_cls m) (m_cfg m) (m_qmodel m) (m_models m) (m_mctx m) (m_cmap m) None
                   [] (m_qkeys m))
     | HLocked =>
-        if forallb (hashable w) (m_models m)
-        then Some (mkP (m_cls m) (m_cfg m) (m_qmodel m) (m_models m) (m_mctx m) []
-                       (Some (build (fun i => i) (fun i => lookup_list (m_cmap m) i) (m_models m)))
-                       (m_graphs m) (m_qkeys m))
-        else None
+        Some (mkP (m_cls m) (m_cfg m) (m_qmodel m) (m_models m) (m_mctx m) []
+                  (Some (locked_store m)) (m_graphs m) (m_qkeys m))
+    | HLockedGraph =>
+        Some (mkP (m_cls m) (m_cfg m) (m_qmodel m) (m_models m) (m_mctx m) []
+                  (Some (locked_store m)) [] (m_qkeys m))
     end.
 
   (* ------------------------------------------------------------- the assumption about pickle *)
@@ -209,8 +215,14 @@ Section Pickle.
     | HLocked =>
         let store := match p_store p with Some s => s | None => [] end in
         mkM (p_cls p) (p_cfg p) (p_qmodel p) (p_models p) (p_mctx p)
-            (build (fun i => i) (fun i => lookup_list store i) (p_models p))
+            (build fst snd store)                       (* for model, contexts in store: map[id(model)] = contexts *)
             (p_graphs p) (p_qkeys p)
+    | HLockedGraph =>
+        let store := match p_store p with Some s => s | None => [] end in
+        mkM (p_cls p) (p_cfg p) (p_qmodel p) (p_models p) (p_mctx p)
+            (build fst snd store)
+            (build (fun i => i) (fun i => render (p_cfg p) (state_of w i)) (p_models p))
+            (p_qkeys p)
     | HGraph =>
         mkM (p_cls p) (p_cfg p) (p_qmodel p) (p_models p) (p_mctx p) (p_cmap p)
             (build (fun i => i) (fun i => render (p_cfg p) (state_of w i)) (p_models p))
@@ -274,11 +286,9 @@ Section Pickle.
     forallb (fun i => negb (nmem (rm i) (keys (w_models w))) && negb (nmem (rm i) (m_models m))) (m_models m) &&
     forallb (fun l => negb (nmem (rl l) (keys (w_locks w))) && negb (nmem (rl l) (all_locks m))) (all_locks m).
 
-  (* the classes whose hooks repair every table they own (the others are the known findings) *)
-  Definition guard (w : world) (m : machine) : bool :=
-    negb (k_locked (m_cls m) && k_graph (m_cls m)) &&            (* KF-C15-1 *)
-    (negb (k_locked (m_cls m)) || forallb (hashable w) (m_models m)) &&   (* KF-C15-2 *)
-    negb (k_async (m_cls m) && m_qmodel m).                     (* KF-C15-3 *)
+  (* the classes whose hooks repair every table they own; the only exception left is the per-model
+     queue table of the async classes (known finding KF-C15-3) *)
+  Definition guard (m : machine) : bool := negb (k_async (m_cls m) && m_qmodel m).
 
   (* ------------------------------------------------------------- runs over the resolved machine *)
   Variables E O : Type.
@@ -348,9 +358,8 @@ Arguments norm_model {_ _ _}.
 Arguments all_locks {_ _}.
 Arguments wf {_ _}.
 Arguments fresh {_ _ _}.
-Arguments guard {_ _ _}.
+Arguments guard {_ _}.
 Arguments state_of {_}.
-Arguments hashable {_}.
 Arguments mkPM {_ _}.
 Arguments pm_obj {_ _}.
 Arguments pm_ctx {_ _}.
@@ -373,6 +382,7 @@ Arguments p_store {_ _}.
 Arguments p_graphs {_ _}.
 Arguments p_qkeys {_ _}.
 Arguments reach_locks {_ _}.
+Arguments locked_store {_ _}.
 Arguments run_view {_ _ _ _ _}.
 Arguments WModel {_}.
 Arguments WLock {_}.
